@@ -141,6 +141,11 @@ def o_init_group(ctx):
                   detail='kind %s titratable=%r' % (kind, g.titratable))
     else:
         ctx.claim('never-made-titratable', g.titratable is False)
+    # 'every other residue still acts as hydrogen-bond partner': whether listed or not, a side-chain group that is not in a
+    # disulfide bridge stays among the interaction partners (and a backbone / bridged one never was)
+    conf.groups = [g]
+    partners = conf.get_sidechain_groups()
+    ctx.claim('interaction-partner-whatever-the-list', (g in partners) == (kind in ('ASP', 'CYS', 'LYS')), detail='kind %s: in get_sidechain_groups = %r' % (kind, g in partners))
     rep = g.use_in_calculations()
     if kind == 'CYS-bridged':
         ctx.claim('bridged-cys-reported-iff-listed', listed if rep else Not(listed))
